@@ -85,6 +85,11 @@ CHECKS = {
   text="Every value-type representative (empty and non-empty) is supplied as `$` to 26 programs over ?> !> && || ^^ !! ?? on both stores and to Xor/Not/Tis as single instructions; results are compared with 'false iff unit or $!'. 38 templates of conditionals / else-chains / && / || over identifiers that only the scripted host can answer are run under every assignment of truthy and falsy host values, and random logic-dense programs on top: the recorded sequence of resolve calls and the final value must equal the reference evaluator's (right operand only when needed, only the selected arm, conditions in order). Held on the programs observed.",
   note="trusts: the reference evaluator (eval.rs) for the expected resolve sequence; left-to-right operand order",
   design="DESIGN.md §5 C10"),
+ "C17": dict(
+  technique="runtime monitor: recorded host-callback history (resolve / apply events at the GarnishData boundary and inside the stores' native hooks) checked against an independent reference evaluator's expected call log and value",
+  text="Templates with identifiers and externals at operand positions, every small AST that mentions an identifier, and random programs are run under hosts that resolve none/some/all symbols (to values and externals) and accept or decline external applies, with input values defining none/some/all identifiers. Each program runs four ways: wrapper-scripted host on both stores, SimpleGarnishData::set_resolver, and a BasicDataCompanion implementing resolve and apply. The recorded sequence of resolve(symbol) / apply(external, argument) calls and the final value must equal the reference evaluator's; the log written inside the native callback must equal the one at the trait boundary. Held on the programs observed.",
+  note="trusts: the reference evaluator's lookup rule (input value first, then host) and left-to-right operand order; SimpleGarnishData has no apply hook, so native acceptance of external applies is exercised on BasicGarnishData only (as the property scopes it)",
+  design="DESIGN.md §5 C17"),
 }
 
 NOT_YET = "check not built yet in this round (work in progress; will be claimed once its monitor exists)"
